@@ -427,6 +427,12 @@ class UdpSocket(object):
             raise OSError(errno.EBADF, 'Bad file descriptor')
         if self.addr is None:
             self.bind(('0.0.0.0' if self.family == _real_socket.AF_INET else '::', 0))
+        # what a kernel refuses: destination port 0 (EINVAL), the limited broadcast address without SO_BROADCAST (EACCES)
+        if address is not None and len(address) > 1 and address[1] == 0:
+            raise OSError(errno.EINVAL, 'Invalid argument')
+        if address is not None and address[0] == '255.255.255.255' and not any(
+                len(opt) >= 2 and opt[1] == _real_socket.SO_BROADCAST for opt in self.opts):
+            raise PermissionError(errno.EACCES, 'Permission denied')
         world = self.net.world
         world.event_no += 1
         self.sent.append((world.event_no, world.now_ns, data, ancdata, address))
